@@ -39,6 +39,32 @@ def key_fields(o):
     return (o.get("st"),)
 
 
+def message_ok(inp, im):
+    """independent check of Error(): 1-based line/column of begin and end, exact quoted text"""
+    runes = B.runes_of(inp)
+    try:
+        r_, b_, e_ = im["max"].split(":")
+        b_, e_ = int(b_), int(e_)
+        msg = bytes.fromhex(im.get("msg", "")).decode("utf-8", errors="replace")
+        m = core.MSG_RE.match(msg)
+        if not m:
+            return False
+
+        def lc(i):
+            line = 1 + runes[:i].count(10)
+            start = 0
+            for k in range(i - 1, -1, -1):
+                if runes[k] == 10:
+                    start = k + 1
+                    break
+            return str(line), str(1 + i - start)
+        if (m.group(2), m.group(3)) != lc(b_) or (m.group(4), m.group(5)) != lc(e_):
+            return False
+        return core.gounquote(m.group(6)) == runes[b_:e_]
+    except Exception:
+        return False
+
+
 def check(ctx):
     pid = ctx.pid
     opts, aspects, saspects, kinds = SPEC[pid]
@@ -128,18 +154,24 @@ def check(ctx):
                     ka, kb = (a.get("st"),), (b.get("st"),)
                 if ka != kb:
                     diffs.append((rec, "options-differ", "option set %s gives %s, default gives %s" % (rec["o"], ka, kb), True))
-    # decide found / not found for correspondence diffs: does the implementation contradict the spec?
+    # decide found / not found for correspondence diffs: does the implementation contradict the
+    # reference semantics (or, for message fields, an independent computation in the harness)?
     for i, (rec, a, d, found) in enumerate(diffs):
         if found is None:
             sp = B.parse_obs(rec.get("spec") or "")
             im = impl_step(rec)
             f = False
-            if sp.get("res") == "S" and (im.get("st") != "0" or (a in ("pos", "tokens", "trace") and (im.get("pos") != sp.get("pos") or im.get("toks", "") != sp.get("toks", "")))):
+            if rec["kind"] != "history":
+                if sp.get("res") == "S" and (im.get("st") != "0" or im.get("pos") != sp.get("pos") or im.get("toks", "") != sp.get("toks", "")):
+                    f = B.OPTSETS[rec["o"]]["noast"] is False or im.get("st") != "0"
+                if sp.get("res") == "F" and im.get("st") != "1":
+                    f = True
+                if sp.get("res") == "F" and im.get("st") == "1" and a == "errtoken" and im.get("max") != sp.get("ff"):
+                    f = True
+            if a in ("badtoken", "timeout") or im.get("st") == "2":
                 f = True
-            if sp.get("res") == "F" and im.get("st") != "1":
-                f = True
-            if a in ("badtoken", "errmsg", "errpos", "errtext", "print", "ast", "timeout") or im.get("st") == "2":
-                f = True
+            if a in ("errmsg", "errpos", "errtext") and im.get("st") == "1":
+                f = not message_ok(rec["inputs"][0], im)
             if a.startswith("spec-"):
                 f = False
             diffs[i] = (rec, a, d, f)
@@ -153,8 +185,16 @@ def check(ctx):
             elif pid in ("C02", "C07") and not oi.get("compiles") and gi["opts"]["d"].get("compiles"):
                 why = oi.get("compile_err") or oi.get("build_error") or oi.get("conv_err") or "?"
                 gen_problems.append((gid, o, "no runnable parser under this option set: " + why[:200]))
+    # generator decisions (structural tie): C01 owns always-succeeds and nil slots, C02 inlining
+    if pid in ("C01", "C02"):
+        for gid, gi in data["grammars"].items():
+            for o in opts:
+                for a, d in core.compare_decisions(gi, o):
+                    rec = dict(g=gid, o=o, inputs=[""], kind="gen", cid="%s/%s/gen" % (gid, o), impl=None, model=gi["opts"][o].get("gen"), spec=None)
+                    diffs.append((rec, a, d, False))
     reported = 0
     seen_keys = set()
+    diffs.sort(key=lambda x: (x[1] in ("missing", "timeout"), not x[3], len(data["grammars"][x[0]["g"]]["text"]) if x[0]["g"] in data["grammars"] else 0, len(x[0]["inputs"][0])))
     for rec, a, d, found in diffs:
         key = "core:%s:%s:%s" % (rec["g"] if not rec["g"].startswith("g") else data["grammars"][rec["g"]]["text"], rec["o"], a)
         kf = ctx.known("core:%s|%s|%s" % (data["grammars"][rec["g"]]["text"], rec["o"], rec["inputs"][0]))
